@@ -22,6 +22,8 @@ def ws_upgrade_queries(tier):
                             defs={"SIDE": side, "LPROTO": lp}, unwind=40, timeout=600, group="c11/ws_upgrade.c-" + sn,
                             params={"unit": "supplemental/websocket/websocket.c " + ("ws_handler" if side == 0 else "ws_http_cb_dialer"),
                                     "fields": "each absent / good / two malformed variants, chosen by the solver", "endpoint_has_subprotocol": bool(lp)}))
+    qs.append(Query("ws-dial-start-limits", "c11/ws_upgrade.c", tus=["core/list.c", "core/strs.c"], env=WENV, defs={"SIDE": 2, "LPROTO": 1}, unwind=40, timeout=300,
+                    group="~c11/ws_upgrade.c-dialstart", params={"unit": "supplemental/websocket/websocket.c ws_dialer_dial", "limits": "RECVMAXSZ / max frame sizes / modes symbolic"}))
     qs.append(Query("ws-upgrade-listener-closed", "c11/ws_upgrade.c", tus=["core/list.c", "core/strs.c"], env=WENV, defs={"SIDE": 0, "LPROTO": 1, "LCLOSED": 1},
                     unwind=40, timeout=600, group="~c11/ws_upgrade.c-closed", params={"unit": "ws_handler", "listener": "closed"}))
     return qs
